@@ -5,7 +5,7 @@ Deviation inventory: each documented deviation has a strict-gated refusal that p
 import re
 
 from cg import VEC_MUTATORS, op_local
-from core import Finding, RuleResult, view
+from core import Finding, RuleResult, atoms_match, view, wild
 from prov import Prov, guards
 from rules_api import refusals
 
@@ -112,10 +112,10 @@ def run(ctx):
             nclass = []
             for (desc, node, shrink) in peffs:
                 if shrink and shrink[0] in ("pop", "truncate"):
-                    rows_ = [r for r in allowed if re.search(r["vector"], shrink[1])]
+                    rows_ = [r for r in allowed if re.search(r["vector"], shrink[1]) or re.search(r["vector"], wild(shrink[1]))]
                     if rows_:
                         at_ = guards(ctx, f).atoms_at(node)
-                        if any(re.search(rows_[0]["noop_guard"], a) for a in at_):
+                        if any(atoms_match(r_["noop_guard"], at_) for r_ in rows_):
                             continue
                         problems.append("%s is no longer confined by the condition that makes it a no-op on strict-accepted input (%s)" % (desc, rows_[0]["why"]))
                         continue
@@ -123,7 +123,7 @@ def run(ctx):
                     # class N: canonicalising assignment after a strict refusal, inside a deviation test
                     g_ = guards(ctx, f)
                     at_ = g_.atoms_at(("t", bb))
-                    devs = [r for r in tbl.get("deviations", []) if r["function"] == f.path and all(any(re.search(rx, a) for a in at_) for rx in r["test"])]
+                    devs = [r for r in tbl.get("deviations", []) if r["function"] == f.path and all(atoms_match(rx, at_) for rx in r["test"])]
                     if devs:
                         nclass.append(devs[0]["id"])
                         continue
@@ -149,7 +149,7 @@ def run(ctx):
         found = []
         for (c, kind) in refusals(ctx, f):
             atoms = g.atoms_at(("t", c.bb))
-            if all(any(re.search(rx, a) for a in atoms) for rx in row["test"]):
+            if all(atoms_match(rx, atoms) for rx in row["test"]):
                 found.append((c, kind, atoms))
         if not found:
             res.fail(Finding("R-MODE.D", key + "/not-rejected", "documented deviation '%s' is no longer refused anywhere in %s: strict open would accept it" % (row["id"], row["function"].split("::")[-1]), f))
